@@ -18,7 +18,7 @@ ASSUMES = ["allele tuples are sorted ascending (the documented precondition)",
            "symbolic alleles/indices are concretised path by path by the solver (table lookups are a C boundary); _comb is symbolic in n for k <= 2",
            "int64 side condition: every intermediate of _comb is checked against 2^63 by a solver query on the path"]
 BOUNDS = {"quick": "comb / comb_with_replacement on the grid n <= 110, k <= 22 (table, its borders and beyond); ploidy 12-13 x <= 3 alleles; ploidy 1..4 x alleles <= 8 (all genotypes/indices); beyond the table: ploidy 2 x alleles 99..130; _comb symbolic n in [0, 2^31] for k <= 2; k in 3..5 with n in [97,140] solver-enumerated",
-          "thorough": "ploidy 1..6 x alleles <= 12; beyond the table ploidy 2..3 x alleles 99..140; k in 3..8 with n in [92,160], k in 12..16 with n in [k,70]"}
+          "thorough": "ploidy 1..4 x alleles <= 12, ploidy 5 x alleles <= 10, ploidy 6 x alleles <= 8; beyond the table ploidy 2..3 x alleles 99..140; k in 3..8 with n in [92,160], k in 12..16 with n in [k,70]"}
 OUTSIDE = "mchap.combinatorics.count_unique_genotypes (scipy.special.comb float code: not encodable); ploidy/alleles beyond the bound"
 TASKS_PER_CHILD = 8
 
@@ -27,7 +27,7 @@ def configs(tier):
     out = []
     quick = tier == "quick"
     for P in ((1, 2, 3, 4) if quick else (1, 2, 3, 4, 5, 6)):
-        Amax = 8 if quick else 12
+        Amax = 8 if quick else (12 if P <= 4 else (10 if P == 5 else 8))  # (P=6 x 12 alleles = 12376 genotypes per group: sized out)
         for top in range(Amax):
             out.append(dict(group="index", P=P, top=top))
         out.append(dict(group="unindex", P=P, A=Amax))
